@@ -544,8 +544,10 @@ class DirectiveModel:
     def ident(self, s):
         return self.tok("Id", self.I.Enum("Identifier", None, {"0": s}))
 
-    def macro(self, name, body=(), is_function=False, num_params=0):
-        return self.I.Enum("Macro", None, {"name": name, "is_function": is_function, "num_params": num_params, "tokens": list(body), "location": self.I.Opaque("loc")})
+    def macro(self, name, body=(), is_function=False, num_params=0, from_api=False):
+        # (a macro handed to compile() through the API has no source location: SourceLocation::UNKNOWN)
+        return self.I.Enum("Macro", None, {"name": name, "is_function": is_function, "num_params": num_params, "tokens": list(body),
+                                           "location": self.I.Enum("SourceLocation", None, {"0": 0xFFFFFFFF if from_api else 5})})
 
     def words(self, *ws):
         """a directive line from words: identifiers, ints, and the keywords if / else (own token kinds), separated by spaces"""
@@ -611,6 +613,8 @@ def rule_redef_eval(chk, pc):
         ("define-new", dm.words("define", "Z", 5), [X1, Y], [], ("Ok", [("X", False, ["LiteralInt"]), ("Y", False, []), ("Z", False, ["LiteralInt"])], [], [])),
         ("define-replaces", dm.words("define", "X", 2, 3), [X1, Y], ["Enabled"], ("Ok", [("Y", False, []), ("X", False, ["LiteralInt", "Whitespace", "LiteralInt"])], ["Enabled"], [])),
         ("define-replaces-other-kind", dm.words("define", "X", 7), [XF, Y], [], ("Ok", [("Y", False, []), ("X", False, ["LiteralInt"])], [], [])),
+        ("define-replaces-api-define", dm.words("define", "X", 7), [dm.macro("X", [dm.tok("LiteralInt", 1)], from_api=True), Y], [], ("Ok", [("Y", False, []), ("X", False, ["LiteralInt"])], [], [])),
+        ("undef-api-define", dm.words("undef", "X"), [dm.macro("X", [dm.tok("LiteralInt", 1)], from_api=True), Y], [], ("Ok", [("Y", False, [])], [], [])),
         ("define-skipped", dm.words("define", "X", 2), [X1, Y], ["DisabledInner"], ("Ok", [("X", False, ["LiteralInt"]), ("Y", False, [])], ["DisabledInner"], [])),
         ("undef", dm.words("undef", "X"), [X1, Y], [], ("Ok", [("Y", False, [])], [], [])),
         ("undef-unknown", dm.words("undef", "Q"), [X1, Y], [], ("Ok", [("X", False, ["LiteralInt"]), ("Y", False, [])], [], [])),
